@@ -84,7 +84,8 @@ class SecsIRouting:
     def ensures(self, message, old):
         sys = message._blocks[0]._header._system
         q, q0 = self._response_queues, old.self._response_queues
-        was_open = sys in q0
+        # (a message with W-bit is a primary of the peer, never a reply - also with the system bytes of an own open transaction: D40)
+        was_open = (sys in q0) and not message._blocks[0]._header._require_response
         return {
             "routed-to-requester-exactly-once-iff-open": q[sys].g_puts - q0[sys].g_puts == ite(was_open, 1, 0),
             "delivered-to-application-exactly-once-iff-no-requester": self._event_producer.g_delivered - old.self._event_producer.g_delivered == ite(was_open, 0, 1),
